@@ -38,7 +38,7 @@ def single_locus(spec):
 def run(res, replay=None):
     rng = random.Random(res.seed)
     res.rule = ('twolocus stream: two loci, Kingman, n<=3 (thorough n<=4 for one deme), 1-2 demes, 1-2 epochs, recombination '
-                'rate in {0, 1/4, 1/2, 1, 4, 1024} given inside the LocusConfig, as keyword next to a LocusConfig, or next to loci=2, all numbers of initially unlinked lineages for one deme; tree height (max over '
+                'rate in {0, 1/4, 1/2, 1, 4, 1024} given inside the LocusConfig, as keyword next to a LocusConfig (empty, or carrying another rate that the keyword overrides, 0 included), or next to loci=2, all numbers of initially unlinked lineages for one deme; tree height (max over '
                 'loci), per-locus heights and branch lengths (mean, var), locus covariance matrix compared with the Gallina '
                 'model; oracles on the implementation: each locus marginal equals the single-locus statistic for every r, '
                 'corr = 1 at r = 0, covariance decreasing towards 0 as r grows; non-trivial = value non-zero')
@@ -55,7 +55,11 @@ def run(res, replay=None):
             s['recombination_rate'] = rng.choice([0.0, 0.25, 0.5, 1.0, 4.0, 1024.0])
             s['n_unlinked'] = rng.randrange(0, n + 1) if nd == 1 else 0
             # the three documented ways of passing the recombination rate
-            s['rec_route'] = ['locus_config', 'kwarg', 'int'][i % 3]
+            s['rec_route'] = ['locus_config', 'kwarg', 'int', 'kwarg_over'][i % 4]
+            if s['rec_route'] == 'kwarg_over':
+                # the keyword overrides a rate already stored in the LocusConfig - also when the keyword is exactly 0
+                s['recombination_rate'] = rng.choice([0.0, 0.0, 0.5, 4.0])
+                s['rec_cfg'] = rng.choice([1.0, 2.0, 8.0])
             specs.append(s)
     items = [dict(spec=s, lc=True, ops=build_ops(rng, s)) for s in specs]
     results = N.run_items(res, 'C06', 'twolocus', items, what='two-locus statistic differs from the ARG value (model)')
